@@ -332,7 +332,9 @@ class Runner:
         if n == "shift":
             return "val", a.shift(op["k"])
         if n == "getInt":
-            return "val", a[op["k"]]
+            # the same index as a numpy integer (np.argmax, np.nonzero, a loop over np.arange hand these over): the model sees only the index
+            k = getattr(np, op["npkey"])(op["k"]) if op.get("npkey") and (op["k"] >= 0 or not op["npkey"].startswith("u")) else op["k"]
+            return "val", a[k]
         if n == "getSlice":
             return "val", a[op["lo"]:op["hi"]]
         if n == "getMonth":
@@ -558,7 +560,10 @@ def gen_op(rng, run, triples, n):
         return {"op": "shift", "i": i, "k": rng.choice([0, 1, 2, 3, -1, n, n + 2])}
     if r < 0.72:
         k = rng.randint(-n - 1, n + 1) if rng.random() < 0.3 else rng.randint(0, max(0, n - 1))
-        return {"op": rng.choice(["getInt", "getMonth"]), "i": i, "k": k, "first": rng.random() < 0.5}
+        o = {"op": rng.choice(["getInt", "getMonth"]), "i": i, "k": k, "first": rng.random() < 0.5}
+        if o["op"] == "getInt" and rng.random() < 0.4:
+            o["npkey"] = rng.choice(["int64", "int32", "uint8", "intp"])
+        return o
     if r < 0.76:
         lo, hi = rng.randint(-n - 1, n + 1), rng.randint(-n - 1, n + 1)
         if rng.random() < 0.6:
@@ -927,6 +932,25 @@ def pred_scalar_series(ctx, nper):
                     ctx.violation("pred-scalar-vs-series:" + short, "%s answers %r for the single value and %r for the one-month series (include_fat=%r, "
                                   "include_protein=%r, a=%r)" % (meth, x, y, flags[0], flags[1], a), dict(case, predicate=meth))
                 ctx.case(("p1", short, flags, tuple(a)), nontrivial=True)
+            # the zero test around its own rounding threshold 10^-d (default d = 9 and explicit d), in one nutrient or in all three
+            d = rng.choice([9, 9, 3, 6, 0, 12])
+            f = rng.choice([0.1, 0.4, 0.6, 0.75, 0.99, 1.01, 1.4, 1.6, 3.0]) * rng.choice([1.0, -1.0])
+            w = [0.0, 0.0, 0.0]
+            for j in ([rng.randrange(3)] if rng.random() < 0.7 else [0, 1, 2]):
+                w[j] = f * 10.0 ** -d
+            W = Food(*w, *[u + form for u in t])
+            SW = Food([w[0]], [w[1]], [w[2]], *[u + form + EACH for u in t])
+            SW3 = Food([0.0, w[0], 0.0], [0.0, w[1], 0.0], [0.0, w[2], 0.0], *[u + form + EACH for u in t])
+            with ctx.quiet():
+                zs = [bool(W.all_equals_zero()), bool(SW.all_equals_zero()), bool(SW3.all_equals_zero())] if d == 9 else \
+                     [bool(W.all_equals_zero(rounding_decimals=d)), bool(SW.all_equals_zero(rounding_decimals=d)), bool(SW3.all_equals_zero(rounding_decimals=d))]
+            if zs[1] != zs[2]:
+                ctx.count("padded-series-answers-differently:allEqZero")
+            if zs[0] != zs[1]:
+                ctx.violation("pred-scalar-vs-series:allEqZero", "all_equals_zero(rounding_decimals=%d) answers %r for the single value %r, %r for the one-month series and %r for "
+                              "that month between two zero months (include_fat=%r, include_protein=%r)" % (d, zs[0], w, zs[1], zs[2], flags[0], flags[1]),
+                              dict(case, a=w, predicate="all_equals_zero", rounding_decimals=d))
+            ctx.case(("p1z", d, f, flags, tuple(w)), nontrivial=True)
             x, y = bool(A.all_greater_than_or_equal_to_zero(threshold=thr)), bool(SA.all_greater_than_or_equal_to_zero(threshold=thr))
             if x != y:
                 ctx.violation("pred-scalar-vs-series:geZero", "all_greater_than_or_equal_to_zero(threshold=%r) answers %r for the single value and %r for "
